@@ -41,9 +41,11 @@ def splitOnceEq : Str → Option (Str × Str)
   | [] => none
   | c :: r => if c = '=' then some ([], r) else (splitOnceEq r).map fun (a, b) => (c :: a, b)
 
-def utf8Len (s : Str) : Nat := (s.map Char.utf8Size).sum
+/-- UTF-8 encoding of a string (structural, so that it can be reasoned about) -/
+def utf8 (s : Str) : Bytes := s.flatMap String.utf8EncodeChar
 
-def utf8 (s : Str) : Bytes := (String.ofList s).toUTF8.toList
+/-- `str::len()`: length in UTF-8 bytes -/
+def utf8Len (s : Str) : Nat := (utf8 s).length
 
 /-- `Keyring::valid_key_name` (after the D4 repair: a TAB cannot be represented in the file) -/
 def validKeyName (s : Str) : Bool :=
